@@ -1,0 +1,8 @@
+//go:build !verif
+
+package hermes
+
+// verifProbe is the verification probe point of the day loop; without the
+// "verif" build tag it does nothing.
+func verifProbe(stage string, zeit, subd int, wdt float64, g *GlobalVarsMain, w *WaterSharedVars, n *NitroSharedVars) {
+}
